@@ -51,6 +51,37 @@ def rebuild (k : Op) (aux : List Nat) (args : List Expr) : Option Expr :=
   | .notCondition, [a] => mkNot a
   | _, _ => some (.op k aux args)
 
+/-- operator classes whose constructor (with its simplifications) `rebuild` models -/
+def modelledCtor : Op → Bool
+  | .sum | .product | .division | .power | .abs | .conj | .real | .imag | .indexed | .indexSum | .componentTensor
+  | .listTensor | .conditional | .minValue | .maxValue | .eQ | .nE | .lT | .gT | .lE | .gE | .andCondition | .orCondition
+  | .notCondition | .variable => true
+  | _ => false
+
+/-- the class constructors, propagating the marker of branches the constructor model does not cover.
+    A literal or zero operand can appear under a rebuilt node (a coefficient mapped to a literal,
+    `Re([-0.25, x])[0]` once `Re` is removed); the constructors not modelled in `rebuild` (math functions
+    fold literals in floating point, compound operators and derivatives simplify zeros) are then not covered. -/
+def litOperands (k : Op) (ops : List Expr) : List Expr :=
+  match k with
+  | .besselJ | .besselY | .besselI | .besselK => ops.drop 1       -- the order is always a literal
+  | _ => ops
+
+def rebuildU (k : Op) (aux : List Nat) (ops : List Expr) : Option Expr :=
+  if ops.any isUnsupported then some unsupported
+  else if !modelledCtor k && (litOperands k ops).any (fun o => isScalarValue o || isZero o) then some unsupported
+  else rebuild k aux ops
+
+/-- when `rebuildU` answers with something other than the marker it is `rebuild`'s answer -/
+theorem rebuildU_eq (k : Op) (aux : List Nat) (ops : List Expr) (r : Expr) (h : rebuildU k aux ops = some r)
+    (hu : isUnsupported r = false) : rebuild k aux ops = some r := by
+  unfold rebuildU at h
+  split at h
+  · simp only [Option.some.injEq] at h; subst h; simp [isUnsupported, unsupported] at hu
+  · split at h
+    · simp only [Option.some.injEq] at h; subst h; simp [isUnsupported, unsupported] at hu
+    · exact h
+
 /-- the shape check of `Replacer.__init__` -/
 def shapesOK (m : Mapping) (shapeOf : String → Option (List Nat)) : Bool :=
   m.all (fun p => match shapeOf p.1 with | some sh => sh == shape p.2 | none => true)
@@ -67,7 +98,7 @@ def replaceE (m : Mapping) : Expr → Option Expr
       if k == .coefficientDerivative then none        -- "Derivatives should be applied before executing replace."
       else if args'.any isUnsupported then some unsupported
       else if beqL args' args then some (.op k aux args)      -- reuse_if_untouched
-      else rebuild k aux args'
+      else rebuildU k aux args'
   | e => some e
 def replaceL (m : Mapping) : List Expr → Option (List Expr)
   | [] => some []
